@@ -87,7 +87,7 @@ def scenarios(tier, seed):
             for op in ["check_independence", "get_independencies", "minimal_imap", "is_imap"]:
                 for variant in range(3):
                     k += 1
-                    if tier == "quick" and variant != k % 3:
+                    if tier == "quick" and variant != (len(struct) + len(op)) % 3:
                         continue
                     out.append(dict(family=f"jpd/{op}/{struct}", mode="jpd", card=card, struct=struct, op=op, variant=variant, hashseed=k % 2,
                                     budget_s=40 if tier == "quick" else 200, max_paths=300))
